@@ -2,7 +2,7 @@
     hypothesis, and the witnesses of the defects the pinned tree had (kept as documentation; the
     model follows the repaired code). *)
 From Coq Require Import List ZArith Bool Lia.
-From Paloma Require Import Gen.C01 Skyway.Bridge Skyway.BridgeProofs.
+From Paloma Require Import Gen.C01 Skyway.Bridge Skyway.BridgeProofs Skyway.BridgeOrder.
 Import ListNotations.
 Open Scope Z_scope.
 
@@ -173,3 +173,27 @@ Example full_end_block_panic_in_deposit :
   let x := end_block_full nofault (fat 1) 7 1000 [[EvDeposit 1 0 (RUser 2) 500]; []] [] s5 in
   eb_dead x = true /\ supply (eb_s x) 0 = 0 /\ escrow (eb_s x) 0 = 204 /\ eb_tr x = [].
 Proof. vm_compute. repeat split. Qed.
+
+(** * Round 2: the cap and the fill order *)
+(** 103 transfers of one token with amounts 1..4 repeating: the end-blocker's build takes exactly
+    100, the three left behind are the lowest keyed (amount 1, the oldest ids), a second build
+    opens a second batch of the same token next to the first *)
+Fixpoint sends (n : nat) : list op :=
+  match n with
+  | O => []
+  | S n' => sends n' ++ [OSend 0 1 0 (1 + Z.of_nat n' mod 4) 0 false nofault]
+  end.
+Definition s6 : state := run (init tb1 (fun _ _ => 100000) (fun _ => 0)) (sends 103 ++ [OCreateBatch 100 1000 nofault]).
+Example cap_reached :
+  map (fun b => length (b_txs b)) (batches s6) = [100%nat] /\ map t_id (pool s6) = [9; 5; 1] /\
+  map t_amount (pool s6) = [1; 1; 1] /\
+  map t_id (firstn 3 (flat_map b_txs (batches s6))) = [100; 96; 92] /\
+  map (fun b => (b_nonce b, length (b_txs b))) (batches (fst (step s6 (OCreateBatch 150 1010 nofault)))) = [(2, 3%nat); (1, 100%nat)].
+Proof. vm_compute. repeat split. Qed.
+Example sends_capped : Forall build_capped (sends 103 ++ [OCreateBatch 100 1000 nofault; OBuild 1 0 100 5 nofault]).
+Proof.
+  apply Forall_app. split.
+  - generalize 103%nat. induction n as [|n IH]; simpl; [constructor|].
+    apply Forall_app. split; [exact IH | constructor; [exact I | constructor]].
+  - constructor; [exact I|]. constructor; [simpl; unfold batch_size; lia | constructor].
+Qed.
